@@ -131,14 +131,22 @@ inductive StatKind where
   | dir | file | absent
   deriving Repr, DecidableEq
 
-/-- The directory `fstree.Query` hands to `filepath.Walk`. -/
+/-- The directory `fstree.Query` hands to `filepath.Walk`.  A directory is walked itself only if the key
+    prefix names it as a directory (empty prefix, trailing `/`) or if it is the base path (a walk never
+    starts above the database directory); otherwise the prefix may end within a segment and the parent
+    directory is walked (the key prefix is applied to every record found, `queryMatchesKey`). -/
 def queryWalkRoot (base pre : Path) (stat : Path → StatKind) : Except Err Path :=
   match buildFilePath base pre false with
   | .error e => .error e
   | .ok walkPrefix =>
     match stat walkPrefix with
-    | .dir => .ok walkPrefix
+    | .dir =>
+      if pre = [] ∨ hasSuffix pre [47] = true ∨ walkPrefix = base then .ok walkPrefix
+      else .ok (dirOf walkPrefix)
     | _ => .ok (dirOf walkPrefix)
+
+/-- `Query.MatchesKey`: the key (path relative to the base path) must start with the query's key prefix. -/
+def queryMatchesKey (pre key : Path) : Bool := hasPrefix key pre
 
 /-- The directories `DirStructure.ensure` passes to `EnsureDirectory`, in order: the root as given,
     then `filepath.Join` of the path so far with each element.  (A child registered with `ChildDir`
